@@ -233,7 +233,7 @@ dropping responses, draining, streaming, closing the pool, any server script): f
 connection `c` whose last response (`http.client`'s `__response`) is `r`,
 * if `r` is closed then its exchange is over (`Done`: read to its declared end, `length_remaining = 0`;
   for a chunked reply: a chunk parser has read the empty line that ends the trailer section, or has
-  hit EOF while discarding it), and
+  hit EOF while discarding it — see `C03_chunked_incomplete_never_reusable_partial`), and
 * if `r` is still open then it reads from `c`'s socket and holds `c` (`_connection = c`), so every way
   of abandoning `r` — `close()`, a failed read, garbage collection — closes `c`.
 Hence no connection with an unfinished exchange is ever idle in the pool. -/
@@ -249,28 +249,46 @@ theorem C03_unclean_never_yields_partial (ops : List Op) (n : Nat) (block proxy 
   refine ⟨q3'.1, fun hn => ⟨?_, q3'.2 hn⟩⟩
   cases hfp : rs.fp with
   | none => exact absurd hfp hn
-  | some k' => rw [q2 k' hfp]
+  | some k' => rw [q2 k' (Or.inl hfp)]
 
 
 /-- **A chunked exchange whose trailer section was not completely received never leaves a reusable
 connection** (partial: the same hypothesis as `C03_unclean_never_yields_partial`, the full statement is
 false for the same reason, `C03_released_unread_witness`).  In every state reachable by a history
 without early release, with arbitrary server scripts (chunk sizes, trailer sections, tails of replies
-held back and delivered late): if a *connected* connection's last response `r` is a closed chunked
-response (not a reply to `HEAD`), then one of the two chunk parsers — urllib3's `read_chunked` or
-`http.client`'s `_read_chunked` — has read the empty line that ends the message (`eom`), or it stopped
-discarding the trailer section because it hit EOF (`eof`: the peer's FIN is then pending on the socket,
-`C03_trailer_eof_pending`, and the checkout probe discards the connection, `C03_dirty_never_yields`).
+held back and delivered late): if a *connected* connection (socket `k`) has a closed chunked response
+(not a reply to `HEAD`) as its last response `r`, then
+* one of the two chunk parsers — urllib3's `read_chunked` or `http.client`'s `_read_chunked` — has read
+  the empty line that ends the message (`eom`), or
+* the peer's FIN is pending on socket `k` (`sockReadable`): the parser stopped discarding the trailer
+  section because it hit EOF, the FIN has been pending ever since, and the checkout probe
+  (`C03_dirty_never_yields`) will discard the connection instead of reusing it.
 A parser that stops earlier — after the last-chunk line, after the first trailer line (the seeded
-defect `seeded/C03-m4`) — would leave `eom = eof = false` behind. -/
+defect `seeded/C03-m4`) — would leave a connected, not readable connection with `eom = false` behind. -/
 theorem C03_chunked_incomplete_never_reusable_partial (ops : List Op) (n : Nat) (block proxy : Bool)
     (hne : ∀ op ∈ ops, NoEarlyOp op) :
     ∀ (c : Nat) (cn : Conn) (k r : Nat) (rs : Resp), (run (init n block proxy) ops).conns[c]? = some cn → cn.sock = some k →
       cn.pending = some r → (run (init n block proxy) ops).resps[r]? = some rs →
-      rs.chunked = true → rs.isHead = false → rs.fp = none → rs.eom = true ∨ rs.eof = true := by
+      rs.chunked = true → rs.isHead = false → rs.fp = none →
+      rs.eom = true ∨ sockReadable (run (init n block proxy) ops) k = true := by
   intro c cn k r rs h1 h2 h3 h4 hch hnh hfp
-  have := (C03_unclean_never_yields_partial ops n block proxy hne c cn k r rs h1 h2 h3 h4).1 hfp
-  rwa [done_chunked hch hnh] at this
+  obtain ⟨_, q2, q3⟩ := (run_link ops n block proxy hne).pend c cn k r rs h1 h2 h3 h4
+  have q3' := q3 (by intro e; cases e)
+  simp only [reduceCtorEq, if_false] at q3'
+  have hd := q3'.1 hfp
+  rw [done_chunked hch hnh] at hd
+  rcases hd with hd | hd
+  · exact Or.inl hd
+  · right
+    cases he : rs.eofAt with
+    | none => rw [he] at hd; cases hd
+    | some k' =>
+      have hk' : k' = k := q2 k' (Or.inr he)
+      subst hk'
+      obtain ⟨_, hf⟩ := (run_prov ops n block proxy).eofB r rs k' h4 he
+      rcases hf with ⟨sk, g1, g2⟩ | hf
+      · unfold sockReadable; rw [g1]; simp [g2]
+      · exact absurd h2 (hf c cn h1)
 
 /-- non-vacuity: streaming a chunked reply with two trailer fields to its end leaves the connection
 connected, idle in the pool, with a closed chunked `__response` — and `eom` set -/
@@ -299,7 +317,7 @@ example :
     let a0 : Attempt := { head := some hc, headLen := 3, body := [1, 2, 3], sizes := [3], trailers := [2, 2], hold := 6, after := .fin }
     let s := run (init 1 false) [.request 0 { preload := false, release := false } .off [a0], .dispose 0 (.stream 7)]
     s.queue = [some 0] ∧ (s.conns.map fun x => x.sock) = [some 0] ∧
-    (s.resps.map fun x => (x.fp, x.eom, x.eof)) = [(none, false, true)] ∧ sockReadable s 0 = true := by
+    (s.resps.map fun x => (x.fp, x.eom, x.eofAt)) = [(none, false, some 0)] ∧ sockReadable s 0 = true := by
   decide
 
 /-- the scenario of the seeded defect `seeded/C03-m4` on the model of the unmodified code: request 0 is
@@ -322,7 +340,7 @@ theorem C03_held_trailer_closes_connection :
     (s.socks.map fun x => (x.inbound.length, x.held.length)) = [(0, 6)] ∧
     -- streaming fails, the connection is closed, response 0 never saw the end of the message
     (match st.2 with | .disp (.raised e) => e.cls == Gen.cU3ReadTimeoutError | _ => false) = true ∧
-    (st.1.conns.map (·.sock)) = [none] ∧ (st.1.resps.map fun x => (x.fp, x.eom, x.eof)) = [(none, false, false)] ∧
+    (st.1.conns.map (·.sock)) = [none] ∧ (st.1.resps.map fun x => (x.fp, x.eom, x.eofAt)) = [(none, false, none)] ∧
     -- the next request goes out on a new socket
     s'.log = [.connect 0, .send 0, .recv 0, .recv 0, .close 0, .put (some 0), .connect 1, .send 1, .recv 1] ∧
     (s'.socks.map fun x => x.held.length) = [6, 0] := by
